@@ -238,6 +238,12 @@ func (s *serverStream) SetHeader(md metadata.MD) error {
 	if err := validateMD(md); err != nil {
 		return err
 	}
+	return s.setHeader(md)
+}
+
+// setHeader is SetHeader without the check of the metadata: what grpc.SetHeader reaches from a unary handler (the
+// transport stream), which in gRPC does not look at the metadata either.
+func (s *serverStream) setHeader(md metadata.MD) error {
 	s.headerM.Lock()
 	defer s.headerM.Unlock()
 
@@ -255,6 +261,10 @@ func (s *serverStream) SendHeader(md metadata.MD) error {
 	if err := validateMD(md); err != nil {
 		return err
 	}
+	return s.sendHeader(md)
+}
+
+func (s *serverStream) sendHeader(md metadata.MD) error {
 	s.headerM.Lock()
 	defer s.headerM.Unlock()
 
